@@ -283,5 +283,5 @@ def harnesses(tier):
         {'name': 'validation', 'fn': h_validation, 'cfg': {}},
         {'name': 'search-depth1-all', 'fn': h_search, 'cfg': {'depth': 1, 'leaves': ['W', 'Ws', 'We', 'Wse', 'D', 'F', 'Fse', 'N0', 'N1'],
                                                              'ops': ['+', '-', '|', '*'], 'days': [0, 2, 4], 'horizon': 10}},
-        {'name': 'search-depth2', 'fn': h_search, 'cfg': {'depth': 2, 'leaves': ['We', 'D', 'N0'], 'ops': ['-', '|'], 'days': [3], 'horizon': 8}},
+        {'name': 'search-depth2', 'fn': h_search, 'cfg': {'depth': 2, 'leaves': ['We', 'D', 'N0'], 'ops': ['-', '|'], 'days': [3], 'horizon': 5}},
     ]
